@@ -670,6 +670,55 @@ impl Lockable<HeapBytes> for HeapBytes {
     }
 }
 
+#[cfg(feature = "verif_hooks")]
+pub mod verif {
+    //! Verification hooks (feature `verif_hooks`): observers for the
+    //! page-aligned allocator. Not part of the public API.
+    use std::sync::atomic::{AtomicUsize, Ordering};
+
+    /// Called with `(addr, size, nonzero)` immediately before a region is
+    /// freed: the data address, the layout size and the number of non-zero
+    /// bytes within `size`.
+    pub type ReleaseObserver = fn(usize, usize, usize);
+    /// Called with `(addr, size)` after a region has been allocated.
+    pub type AllocObserver = fn(usize, usize);
+
+    static RELEASE_OBSERVER: AtomicUsize = AtomicUsize::new(0);
+    static ALLOC_OBSERVER: AtomicUsize = AtomicUsize::new(0);
+
+    /// Registers (or clears) the release observer.
+    pub fn set_release_observer(f: Option<ReleaseObserver>) {
+        RELEASE_OBSERVER.store(f.map_or(0, |f| f as usize), Ordering::SeqCst);
+    }
+
+    /// Registers (or clears) the allocation observer.
+    pub fn set_alloc_observer(f: Option<AllocObserver>) {
+        ALLOC_OBSERVER.store(f.map_or(0, |f| f as usize), Ordering::SeqCst);
+    }
+
+    pub(super) unsafe fn observe_release(addr: *const u8, size: usize) {
+        let f = RELEASE_OBSERVER.load(Ordering::SeqCst);
+        if f != 0 {
+            let f: ReleaseObserver = std::mem::transmute(f);
+            let mut nonzero = 0usize;
+            for i in 0..size {
+                if std::ptr::read_volatile(addr.add(i)) != 0 {
+                    nonzero += 1;
+                }
+            }
+            f(addr as usize, size, nonzero);
+        }
+    }
+
+    pub(super) unsafe fn observe_alloc(addr: *const u8, size: usize) {
+        let f = ALLOC_OBSERVER.load(Ordering::SeqCst);
+        if f != 0 {
+            let f: AllocObserver = std::mem::transmute(f);
+            f(addr as usize, size);
+        }
+    }
+}
+
 #[derive(Clone)]
 /// Custom page-aligned allocator implementation. Creates blocks of page-aligned
 /// heap-allocated memory regions, with no-access pages before and after the
@@ -756,6 +805,11 @@ unsafe impl Allocator for PageAlignedAllocator {
             .map_err(|err| eprintln!("mprotect error = {:?}, in allocator", err))
             .ok();
 
+        #[cfg(feature = "verif_hooks")]
+        unsafe {
+            verif::observe_alloc(slice.as_ptr(), layout.size());
+        }
+
         unsafe { Ok(ptr::NonNull::new_unchecked(slice)) }
     }
 
@@ -779,6 +833,9 @@ unsafe impl Allocator for PageAlignedAllocator {
         dryoc_mprotect_readwrite(aft_protected_region)
             .map_err(|err| eprintln!("mprotect error = {:?}", err))
             .ok();
+
+        #[cfg(feature = "verif_hooks")]
+        verif::observe_release(ptr.add(pagesize), layout.size());
 
         #[cfg(unix)]
         {
